@@ -30,6 +30,10 @@ func validateConfig(cfg ElectionConfig) error {
 	}
 
 	// Check ValidationInterval (if set)
+	if cfg.ValidationInterval < 0 {
+		return NewValidationError("ValidationInterval", cfg.ValidationInterval,
+			"validation interval must not be negative")
+	}
 	if cfg.ValidationInterval > 0 {
 		if cfg.ValidationInterval < cfg.HeartbeatInterval {
 			return NewValidationError("ValidationInterval", cfg.ValidationInterval,
@@ -38,6 +42,10 @@ func validateConfig(cfg ElectionConfig) error {
 		}
 	}
 
+	if cfg.DisconnectGracePeriod < 0 {
+		return NewValidationError("DisconnectGracePeriod", cfg.DisconnectGracePeriod,
+			"disconnect grace period must not be negative")
+	}
 	if cfg.DisconnectGracePeriod > 0 {
 		minGracePeriod := cfg.HeartbeatInterval * 2
 		if cfg.DisconnectGracePeriod < minGracePeriod {
